@@ -13,7 +13,9 @@
      Lib/codecs.py of CPython 3.12: read(size, chars), readline(), reset(),
      seek()), writes go straight to the stream; UTF-8 is [utf8_enc]/[utf8_dec]
      below (incremental decoding keeps an incomplete trailing sequence);
-   * str.splitlines / bytes.splitlines are [gsplit]. *)
+   * since fix 5 of the second/third wave SpooledStringIO.readline no longer calls
+     StreamReader.readline: the reader's linebuffer therefore stays None and
+     only read(size, chars) is transcribed. *)
 From Boltons Require Import Lib.Prelude Spec.C18_Spec.
 
 (* a method call on the backing file object *)
@@ -76,9 +78,9 @@ Definition sb_getvalue (s : sbytes) : sbytes * list N :=
   let '(b, val) := call_data (sb_buf s1) (Read None) in
   (sb_seek0 (sb_with s1 b) pos, val).
 
+(* readline(length): buffer.readline() if length is None else buffer.readline(length) *)
 Definition sb_readline (s : sbytes) (lim : option nat) : sbytes * list N :=
-  let lim' := match lim with Some 0 => None | l => l end in      (* `if length:` *)
-  let '(b, d) := call_data (sb_buf s) (ReadLine lim') in (sb_with s b, d).
+  let '(b, d) := call_data (sb_buf s) (ReadLine lim) in (sb_with s b, d).
 
 (* __next__ (after fix 3166b79): line = readline(); if not line: pos = buffer.tell();
    buffer.seek(0, END); end = buffer.tell(); buffer.seek(pos); if pos >= end: raise StopIteration *)
@@ -190,27 +192,9 @@ Fixpoint utf8_dec (p : list N) : list N * list N * bool :=
 
 Close Scope N_scope.
 
-(* =========================================================================
-   splitlines(keepends=True) for a given set of line-break characters
-   ========================================================================= *)
-Definition is_ubrk (c : N) : bool :=           (* str.splitlines *)
-  N.eqb c 10 || N.eqb c 13 || N.eqb c 11 || N.eqb c 12 || N.eqb c 28 || N.eqb c 29 ||
-  N.eqb c 30 || N.eqb c 133 || N.eqb c 8232 || N.eqb c 8233.
-Definition is_bbrk (c : N) : bool := N.eqb c 10 || N.eqb c 13.    (* bytes.splitlines *)
-
-Fixpoint gsplit (brk : N -> bool) (l : list N) : list (list N) :=
-  match l with
-  | [] => []
-  | x :: r =>
-      let tl := gsplit brk r in
-      if N.eqb x 13 && match r with y :: _ => N.eqb y 10 | [] => false end then
-        match tl with ln :: more => (x :: ln) :: more | [] => [[x]] end   (* "\r\n" *)
-      else if brk x then [x] :: tl
-      else match tl with [] => [[x]] | ln :: more => (x :: ln) :: more end
-  end.
-
-Definition ends_with (p : N -> bool) (l : list N) : bool :=
-  match rev l with x :: _ => p x | [] => false end.
+(* does the piece end with "\n"? *)
+Definition ends_nl (l : list N) : bool :=
+  match rev l with x :: _ => N.eqb x 10 | [] => false end.
 
 (* =========================================================================
    codecs.StreamReader over the stream (the EncodedFile)
@@ -218,7 +202,7 @@ Definition ends_with (p : N -> bool) (l : list N) : bool :=
 Record sreader := mkRd {
   rd_bytes : list N;                      (* bytebuffer *)
   rd_chars : list N;                      (* charbuffer *)
-  rd_lines : option (list (list N));      (* linebuffer (None, or >= 2 cached lines) *)
+  rd_lines : option (list (list N));      (* linebuffer: only StreamReader.readline sets it, which is never called *)
   rd_ok : bool                            (* false after a UnicodeDecodeError / out of fuel *)
 }.
 Definition rd_fresh : sreader := mkRd [] [] None true.
@@ -255,49 +239,6 @@ Definition rd_read (e : encfile) (size chars : option nat) : encfile * list N :=
   match chars with
   | None => (mkEF stream (mkRd bb [] None ok), cb)
   | Some c => (mkEF stream (mkRd bb (skipn c cb) None ok), firstn c cb)
-  end.
-
-(* StreamReader.readline(size=None, keepends=True): the loop after the
-   linebuffer shortcut; readsize starts at 72 and doubles below 8000 *)
-Fixpoint rl_loop (fuel : nat) (e : encfile) (line : list N) (readsize : nat) : encfile * list N :=
-  match fuel with
-  | 0 => (mkEF (ef_stream e) (mkRd (rd_bytes (ef_rd e)) (rd_chars (ef_rd e)) (rd_lines (ef_rd e)) false), line)
-  | S fuel' =>
-      let '(e1, data0) := rd_read e (Some readsize) None in
-      let '(e2, data) :=
-        if nonempty data0 && ends_with (N.eqb 13) data0
-        then let '(e2, x) := rd_read e1 (Some 1) (Some 1) in (e2, data0 ++ x)
-        else (e1, data0) in
-      let line := line ++ data in
-      let rd := ef_rd e2 in
-      let continue_ (_ : unit) :=
-        if nonempty data
-        then rl_loop fuel' e2 line (if readsize <? 8000 then 2 * readsize else readsize)
-        else (e2, line) in
-      match gsplit is_ubrk line with
-      | l0 :: l1 :: more =>
-          match more with
-          | [] => (mkEF (ef_stream e2) (mkRd (rd_bytes rd) (l1 ++ rd_chars rd) None (rd_ok rd)), l0)
-          | _ =>
-              let cached := removelast (l1 :: more) ++ [last (l1 :: more) [] ++ rd_chars rd] in
-              (mkEF (ef_stream e2) (mkRd (rd_bytes rd) [] (Some cached) (rd_ok rd)), l0)
-          end
-      | [l0] => if ends_with is_ubrk l0 then (e2, l0) else continue_ tt
-      | [] => continue_ tt
-      end
-  end.
-
-Definition rd_readline (e : encfile) : encfile * list N :=
-  let rd := ef_rd e in
-  match rd_lines rd with
-  | Some (l0 :: more) =>
-      match more with
-      | [only] => (mkEF (ef_stream e) (mkRd (rd_bytes rd) only None (rd_ok rd)), l0)
-      | _ => (mkEF (ef_stream e) (mkRd (rd_bytes rd) (rd_chars rd) (Some more) (rd_ok rd)), l0)
-      end
-  | _ =>
-      let fuel := S (S (length (rest (ef_stream e)) + length (rd_chars rd) + length (rd_bytes rd))) in
-      rl_loop fuel e [] 72
   end.
 
 (* StreamRecoder.seek: reader.seek (stream.seek + reset) then writer.seek (stream.seek) *)
@@ -397,17 +338,50 @@ Definition ss_seek (s : sstring) (off : Z) (mode : nat) : sstring * fobs :=
   | _ => (s, OErr ValueError)
   end.
 
-(* readline(): ret = buffer.readline(None).decode('utf-8'); _tell = tell() + len(ret) *)
-Definition ss_readline (s : sstring) : sstring * list N :=
-  let '(e, ret) := rd_readline (ss_buf s) in
-  (ss_with s e (ss_tell s + length ret), ret).
+(* readline(length) (after the repair of C18-line-boundaries): read chunks through the code-point
+   path and stop after the first "\n" - and at no other character, like io.StringIO -; what follows
+   it in the chunk is handed back: reader.charbuffer = chunk[end:] + reader.charbuffer;
+   self._tell -= len(chunk) - end *)
+Definition ss_push_back (s : sstring) (back : list N) : sstring :=
+  let rd := ef_rd (ss_buf s) in
+  ss_with s (mkEF (ef_stream (ss_buf s)) (mkRd (rd_bytes rd) (back ++ rd_chars rd) (rd_lines rd) (rd_ok rd)))
+          (ss_tell s - length back).
 
-(* readlines(): StreamRecoder.readlines = reader.read() encoded, bytes.splitlines(keepends=True),
-   each piece decoded again *)
-Definition ss_readlines (s : sstring) : sstring * list (list N) :=
-  let '(e, data) := rd_read (ss_buf s) None None in
-  let ret := gsplit is_bbrk data in
-  (ss_with s e (ss_tell s + length (concat ret)), ret).
+Fixpoint ss_readline_loop (fuel : nat) (s : sstring) (limit : option nat) (line : list N)
+  : sstring * list N :=
+  match fuel with
+  | 0 => (ss_with s (mkEF (ef_stream (ss_buf s)) (mkRd [] [] None false)) (ss_tell s), line)
+  | S fuel' =>
+      if match limit with Some l => l <=? length line | None => false end then (s, line)
+      else
+        let n := match limit with
+                 | None => ss_chunk s
+                 | Some l => Nat.min (ss_chunk s) (l - length line)
+                 end in
+        let '(s1, chunk) := ss_read s (Some n) in
+        if nonempty chunk then
+          let l := take_line chunk in             (* chunk[:chunk.find('\n') + 1], or all of it *)
+          if ends_nl l then (ss_push_back s1 (skipn (length l) chunk), line ++ l)
+          else ss_readline_loop fuel' s1 limit (line ++ chunk)
+        else (s1, line)
+  end.
+
+Definition ss_readline (s : sstring) (lim : option nat) : sstring * list N :=
+  ss_readline_loop (S (S (length (rf_data (ef_stream (ss_buf s)))))) s lim [].
+
+(* readlines(sizehint): for line in iter(self.readline, ''): lines.append(line); total += len(line);
+   if sizehint and 0 < sizehint <= total: break *)
+Fixpoint ss_readlines (fuel : nat) (s : sstring) (hint total : nat) (acc : list (list N)) : sstring * fobs :=
+  match fuel with
+  | 0 => (s, OErr fuel_err)
+  | S fuel' =>
+      let '(s1, line) := ss_readline s None in
+      if nonempty line then
+        let total' := total + length line in
+        if (0 <? hint) && (hint <=? total') then (s1, OLines (acc ++ [line]))
+        else ss_readlines fuel' s1 hint total' (acc ++ [line])
+      else (s1, OLines acc)
+  end.
 
 Definition ss_getvalue (s : sstring) : sstring * list N :=
   let pos := ss_tell s in
@@ -416,7 +390,7 @@ Definition ss_getvalue (s : sstring) : sstring * list N :=
   (ss_seek_set s2 pos, val).
 
 Definition ss_next (s : sstring) : sstring * res (list N) :=
-  let '(s1, line) := ss_readline s in
+  let '(s1, line) := ss_readline s None in
   if nonempty line then (s1, Ok line)
   else
     let pos := ef_tell (ss_buf s1) in
@@ -445,10 +419,8 @@ Definition ss_step0 (s : sstring) (op : fop) : sstring * fobs :=
   | Rollover => (ss_rollover s, ONone)
   | WriteBad => (s, OErr TypeError)
   | Read n => let '(s', d) := ss_read s n in (s', OData d)
-  | ReadLine None => let '(s', d) := ss_readline s in (s', OData d)
-  | ReadLine (Some _) => (s, OErr model_err)
-  | ReadLines 0 => let '(s', ls) := ss_readlines s in (s', OLines ls)
-  | ReadLines _ => (s, OErr model_err)
+  | ReadLine lim => let '(s', d) := ss_readline s lim in (s', OData d)
+  | ReadLines hint => ss_readlines (S (length (rf_data (ef_stream (ss_buf s))))) s hint 0 []
   | Next => match ss_next s with (s', Ok d) => (s', OData d) | (s', Raise e) => (s', OErr e) end
   | IterAll => ss_iter (S (length (rf_data (ef_stream (ss_buf s))))) s []
   | ListAll =>
@@ -516,19 +488,3 @@ Fixpoint mfr_run (m : mfr) (ops : list mop) : list fobs :=
   | [] => []
   | op :: r => let '(m', o) := mfr_step m op in o :: mfr_run m' r
   end.
-
-(* =========================================================================
-   vocabulary of the open finding C18-line-boundaries (used by the checker's
-   guard and by the _partial theorem): line calls, and the characters at which
-   str.splitlines / bytes.splitlines split but io.StringIO does not
-   ========================================================================= *)
-Definition is_line_op (op : fop) : bool :=
-  match op with ReadLine _ | ReadLines _ | Next | ListAll | IterAll => true | _ => false end.
-Definition odd_break (c : N) : bool := is_ubrk c && negb (N.eqb c 10).
-Definition writes_odd_break (ops : list fop) : bool :=
-  existsb (fun op => match op with
-                     | Write d => existsb odd_break d
-                     | WriteLines ds => existsb (existsb odd_break) ds
-                     | _ => false
-                     end) ops.
-
